@@ -5,12 +5,12 @@
      session.go:519-544     Session.handleEvents  (loop, the three ErrInvalidMsgType exits, consumed += n)
      protocol_manager.go    protocolHandlers table, handlePolling, handleStreamClose, handleFallbackData
                             (payloadLen = int(Length) - headerSize, make([]byte,payloadLen), data[:4], data[4:8]),
-                            handleHotRestart (lambda posted to the dispatcher; s.manager may be nil),
-                            handleHotRestartAck (s.listener may be nil)
+                            handleHotRestart (rejects when s.manager == nil; lambda posted to the dispatcher),
+                            handleHotRestartAck (rejects when s.listener == nil)
      session.go             getStream / getStreamById / handleStreamMessage, stream.halfClose,
                             stream.fillDataToReadBuffer (as far as it is visible on the control path),
                             onEventData (handleEvents, commitRead(consumed), exit on error),
-                            extractShmMetadata (unchecked slicing)
+                            extractShmMetadata (every slice behind a length check)
      protocol_manager.go / protocol_initializer.go   the server-side handshake readers
                             (blockReadEventHeader, V2 / V3 initialisers, handleShareMemoryByFilePath /
                              handleShareMemoryByMemFd with the uint32 arithmetic Length - headerSize)
@@ -71,15 +71,20 @@ Record sess := {
   s_has_listener : bool;         (* s.listener != nil *)
   s_has_manager : bool;          (* s.manager != nil *)
   s_epoch : Z;                   (* s.listener.epoch *)
+  s_lstate : Z;                  (* s.listener.state *)
+  s_state : Z;                   (* s.state (defaultState / hotRestartState / hotRestartDoneState) *)
   s_streams : list (Z * Z);      (* s.streams: id -> stream state *)
   s_queue : list qelem }.        (* content of queueManager.recvQueue *)
 
 Definition with_streams (s : sess) (l : list (Z * Z)) : sess :=
   {| s_client := s_client s; s_has_listener := s_has_listener s; s_has_manager := s_has_manager s;
-     s_epoch := s_epoch s; s_streams := l; s_queue := s_queue s |}.
+     s_epoch := s_epoch s; s_lstate := s_lstate s; s_state := s_state s; s_streams := l; s_queue := s_queue s |}.
 Definition with_queue (s : sess) (q : list qelem) : sess :=
   {| s_client := s_client s; s_has_listener := s_has_listener s; s_has_manager := s_has_manager s;
-     s_epoch := s_epoch s; s_streams := s_streams s; s_queue := q |}.
+     s_epoch := s_epoch s; s_lstate := s_lstate s; s_state := s_state s; s_streams := s_streams s; s_queue := q |}.
+Definition with_state (s : sess) (st : Z) : sess :=
+  {| s_client := s_client s; s_has_listener := s_has_listener s; s_has_manager := s_has_manager s;
+     s_epoch := s_epoch s; s_lstate := s_lstate s; s_state := st; s_streams := s_streams s; s_queue := s_queue s |}.
 
 Inductive action :=
 | APoll                                   (* stats.recvPollingEventCount++ *)
@@ -90,7 +95,7 @@ Inductive action :=
 | ARecycle (id : Z)                       (* queue element for an unknown stream: buffers recycled *)
 | AFallback (id status len : Z)           (* stats.fallbackReadCount++ (circuit breaker opened) *)
 | APostHotRestart (epoch : Z)             (* lambda posted to the dispatcher *)
-| AHotRestartAck (epoch : Z) (matched : bool).   (* matched: ackCount--, state := hotRestartDone *)
+| AHotRestartAck (epoch : Z) (matched : bool).   (* matched: listener.hotRestartAckCount--, s.state := hotRestartDone *)
 
 Inductive panic_kind :=
 | PMakeslice          (* make([]byte, negative) *)
@@ -168,11 +173,14 @@ Definition handle_stream_close (s : sess) (h buf : list Z) : hres :=
        HDone (c_headerSize + streamCloseIdLen) s' acts None.
 
 (* handleFallbackData.  eventLen = int(h.Length()) (non-negative on 64 bit); payloadLen = eventLen - headerSize
-   may be negative.  data = make([]byte, payloadLen) has cap = len = payloadLen. *)
+   may be negative.  An event too short for seqID and status is rejected first (returns headerSize,
+   ErrInvalidMsgType).  data = make([]byte, payloadLen) has cap = len = payloadLen; the slicing below keeps its
+   panic conditions in the model, EventProofs shows they are unreachable behind the length check. *)
 Definition handle_fallback (s : sess) (h buf : list Z) : hres :=
   let eventLen := hdr_length h in
   let payloadLen := eventLen - c_headerSize in
-  if zlen buf <? payloadLen then HStop
+  if payloadLen <? fallbackDataHeader then HDone c_headerSize s [] (Some EInvalidMsgType)
+  else if zlen buf <? payloadLen then HStop
   else if payloadLen <? 0 then HPanic PMakeslice                       (* make([]byte, payloadLen) *)
   else
     let data := firstn (Z.to_nat payloadLen) buf in
@@ -189,16 +197,24 @@ Definition handle_fallback (s : sess) (h buf : list Z) : hres :=
         HDone eventLen s2 (a0 ++ a1 ++ a2) None
       else HDone eventLen s1 (a0 ++ a1) None.
 
-(* handleHotRestart: the lambda is only posted here; it runs after handleEvents returned (run_posted) *)
+(* handleHotRestart: a session without manager rejects the event; otherwise the lambda is only posted here, it runs
+   after handleEvents returned (run_posted) *)
 Definition handle_hot_restart (s : sess) (h buf : list Z) : hres :=
-  if zlen buf <? c_epochIDLen then HStop
+  if negb (s_has_manager s) then HDone c_headerSize s [] (Some EInvalidMsgType)
+  else if zlen buf <? c_epochIDLen then HStop
   else HDone (c_headerSize + c_epochIDLen) s [APostHotRestart (be64 buf 0)] None.
 
+(* handleHotRestartAck: a session without listener rejects the event (before the fix: s.listener.mu.Lock() on nil) *)
 Definition handle_hot_restart_ack (s : sess) (h buf : list Z) : hres :=
-  if zlen buf <? c_epochIDLen then HStop
+  if negb (s_has_listener s) then HDone c_headerSize s [] (Some EInvalidMsgType)
+  else if zlen buf <? c_epochIDLen then HStop
   else let epoch := be64 buf 0 in
        if negb (s_has_listener s) then HPanic PNilListener              (* s.listener.mu.Lock() *)
-       else HDone (c_headerSize + c_epochIDLen) s [AHotRestartAck epoch (epoch =? s_epoch s)] None.
+       else
+         (* only an ack that answers the hot restart in progress, on a session still waiting for it, counts *)
+         let matched := (s_lstate s =? c_hotRestartState) && (epoch =? s_epoch s) && (s_state s =? c_hotRestartState) in
+         HDone (c_headerSize + c_epochIDLen) (if matched then with_state s c_hotRestartDoneState else s)
+               [AHotRestartAck epoch matched] None.
 
 (* protocolHandlers[msgType] *)
 Definition run_handler (t : Z) (s : sess) (h buf : list Z) : hres :=
@@ -295,41 +311,28 @@ Fixpoint feed (s : sess) (pending : list Z) (chunks : list (list Z)) : fed :=
     end
   end.
 
-(* the dispatched events of a delivery (type, Length), for stating exact hypotheses *)
-Fixpoint dispatched (fuel : nat) (s : sess) (rest : list Z) : list (Z * Z) :=
-  match fuel with
-  | O => []
-  | S f =>
-    if zlen rest <? c_headerSize then []
-    else
-      let h := firstn (Z.to_nat c_headerSize) rest in
-      let me := (hdr_type h, hdr_length h) in
-      match step1 s rest with
-      | SNeedMore => match check_header h with HdrOk => [me] | _ => [] end
-      | SPanic _ => [me]
-      | SErr _ _ _ _ => []
-      | SNext n s' _ => me :: dispatched f s' (skipn (Z.to_nat n) rest)
-      end
-  end.
-Definition dispatched_events (s : sess) (buf : list Z) : list (Z * Z) := dispatched (S (length buf)) s buf.
-
 (* ------------------------------------------------------------------------------------------ *)
 (* handshake readers (server side)                                                             *)
 (* ------------------------------------------------------------------------------------------ *)
 (* Session.extractShmMetadata(body): body has cap = len (it comes from make([]byte, n)) *)
-Inductive meta := MetaPanic | MetaOk (queuePath bufferPath : list Z).
+(* every length taken from the peer is checked against len(body) first (error return); the slice expressions keep
+   their panic conditions in the model, EventProofs shows they are unreachable behind the checks *)
+Inductive meta := MetaPanic | MetaErr | MetaOk (queuePath bufferPath : list Z).
 Definition extract_shm_metadata (body : list Z) : meta :=
-  if zlen body <? 2 then MetaPanic                                       (* body[0:2] *)
+  if zlen body <? 0 + 2 then MetaErr
+  else if zlen body <? 2 then MetaPanic                                  (* body[0:2] *)
   else let qlen := be16 body 0 in
-       if zlen body <? 2 + qlen then MetaPanic                           (* body[2 : 2+qlen] *)
+       if zlen body <? 2 + qlen + 2 then MetaErr
+       else if zlen body <? 2 + qlen then MetaPanic                      (* body[2 : 2+qlen] *)
        else if zlen body <? 2 + qlen + 2 then MetaPanic                  (* body[off : off+2] *)
        else let blen := be16 body (Z.to_nat (2 + qlen)) in
-            if zlen body <? 2 + qlen + 2 + blen then MetaPanic           (* body[off : off+blen] *)
+            if zlen body <? 2 + qlen + 2 + blen then MetaErr
+            else if zlen body <? 2 + qlen + 2 + blen then MetaPanic      (* body[off : off+blen] *)
             else MetaOk (firstn (Z.to_nat qlen) (skipn 2 body))
                         (firstn (Z.to_nat blen) (skipn (Z.to_nat (2 + qlen + 2)) body)).
 
 Inductive hs_outcome :=
-| HsPanic                          (* extractShmMetadata sliced out of range: the handshake goroutine dies *)
+| HsPanic                          (* extractShmMetadata slices out of range: the handshake goroutine dies (unreachable) *)
 | HsErr                            (* the handshake returns an error: only this session fails *)
 | HsEof                            (* the reader waits for bytes the peer never sent *)
 | HsMapFile (q b : list Z)         (* metadata accepted, proceeds to map the two files *)
@@ -345,31 +348,39 @@ Definition read_header (input : list Z) : option (list Z) * list Z :=
   if zlen input <? c_headerSize then (None, input)
   else (Some (firstn (Z.to_nat c_headerSize) input), skipn (Z.to_nat c_headerSize) input).
 
-(* body := make([]byte, hdr.Length()-headerSize) -- uint32 arithmetic -- ; blockReadFull *)
-Definition read_body (h input : list Z) : option (list Z) :=
-  let n := w32 (hdr_length h - c_headerSize) in
-  if zlen input <? n then None else Some (firstn (Z.to_nat n) input).
+(* a Length below headerSize is rejected; then body := make([]byte, hdr.Length()-headerSize) -- uint32 arithmetic,
+   which no longer wraps -- ; blockReadFull *)
+Inductive body_read := BodyBadLength | BodyEof | BodyOk (body : list Z).
+Definition read_body (h input : list Z) : body_read :=
+  if hdr_length h <? c_headerSize then BodyBadLength
+  else
+    let n := w32 (hdr_length h - c_headerSize) in
+    if zlen input <? n then BodyEof else BodyOk (firstn (Z.to_nat n) input).
 
-(* extractShmMetadata never fails for these bodies: the guard a `fix:` would add *)
+(* extractShmMetadata accepts exactly these bodies *)
 Definition meta_wf (body : list Z) : bool :=
   (2 <=? zlen body) && (2 + be16 body 0 + 2 <=? zlen body)
   && (2 + be16 body 0 + 2 + be16 body (Z.to_nat (2 + be16 body 0)) <=? zlen body).
 
 Definition hs_share_by_path (h input : list Z) (replies : list (Z * Z * Z)) : hs_result :=
   match read_body h input with
-  | None => {| hs_out := HsEof; hs_replies := replies; hs_body := None |}
-  | Some body =>
+  | BodyBadLength => {| hs_out := HsErr; hs_replies := replies; hs_body := None |}
+  | BodyEof => {| hs_out := HsEof; hs_replies := replies; hs_body := None |}
+  | BodyOk body =>
     match extract_shm_metadata body with
     | MetaPanic => {| hs_out := HsPanic; hs_replies := replies; hs_body := Some body |}
+    | MetaErr => {| hs_out := HsErr; hs_replies := replies; hs_body := Some body |}
     | MetaOk q b => {| hs_out := HsMapFile q b; hs_replies := replies; hs_body := Some body |}
     end
   end.
 Definition hs_share_by_memfd (ver : Z) (h input : list Z) (replies : list (Z * Z * Z)) : hs_result :=
   match read_body h input with
-  | None => {| hs_out := HsEof; hs_replies := replies; hs_body := None |}
-  | Some body =>
+  | BodyBadLength => {| hs_out := HsErr; hs_replies := replies; hs_body := None |}
+  | BodyEof => {| hs_out := HsEof; hs_replies := replies; hs_body := None |}
+  | BodyOk body =>
     match extract_shm_metadata body with
     | MetaPanic => {| hs_out := HsPanic; hs_replies := replies; hs_body := Some body |}
+    | MetaErr => {| hs_out := HsErr; hs_replies := replies; hs_body := Some body |}
     | MetaOk q b => {| hs_out := HsMemfd q b; hs_replies := replies ++ [(c_headerSize, ver, c_typeAckReadyRecvFD)];
                        hs_body := Some body |}
     end
@@ -387,10 +398,10 @@ Definition server_handshake (input : list Z) : hs_result :=
     | HdrBadVersion | HdrBadType => hs_stop HsErr []
     | HdrOk =>
       let v := hdr_version h in
-      if v =? c_protoVersion then
+      if v =? c_initializerVersion_2 then
         if negb (hdr_type h =? c_typeShareMemoryByFilePath) then hs_stop HsErr []
         else hs_share_by_path h rest []
-      else if v =? c_maxSupportProtoVersion then
+      else if v =? c_initializerVersion_3 then
         if negb (hdr_type h =? c_typeExchangeProtoVersion) then hs_stop HsErr []
         else
           let ver := Z.min v c_maxSupportProtoVersion in
